@@ -8,6 +8,9 @@
  *                        (floats as IEEE single bit patterns, 8 hex digits each), compared with the Lean model by
  *                        Driver/DelayMain.lean; plus "T tdac ..." lines: forward -> backward with overlap-add over
  *                        consecutive frames on the real code vs. the input (evaluated by tools/props/C04.py).
+ *   encroute <seed> <n>  the copy_channel_in calls of the stream loop of opus_multistream_encode_native (which input channel
+ *                        feeds which stream side) for the surround layouts and <n> random encoder-valid layouts:
+ *                        "I delay encroute <channels> <streams> <coupled> x<mapping>" / "O s<stride>o<offset>c<channel> ..."
  *   rt                   reads configuration lines on stdin, runs the real encoder and decoder, prints the measured
  *                        delay / SNR / gain / per-band energy error / channel matrix of the decoded signal:
  *       rt <kind> <Fs> <ch> <app> <bw> <bitrate> <frame> <cplx> <vbr> <fmt> <force> <family> <stereo> <sigseed> <aux>
@@ -497,16 +500,71 @@ static void mode_mdct(uint64_t seed, int ncase)
    }
 }
 
+/* ------------------------------------------------------------------ encoder-side channel routing */
+typedef struct { int n; opus_res *base; struct { opus_res *dst; int stride, chan; } call[600]; } RouteLog;
+static void rec_copy_in(opus_res *dst, int dst_stride, const void *src, int src_stride, int src_channel, int frame_size, void *user_data)
+{
+   int i;
+   for (i = 0; i < frame_size; i++) dst[i * dst_stride] = 0;
+   if (user_data) {         /* surround_analysis passes NULL; the stream loop passes the caller's pointer */
+      RouteLog *g = (RouteLog *)user_data;
+      if (g->n < 600) { g->call[g->n].dst = dst; g->call[g->n].stride = dst_stride; g->call[g->n].chan = src_channel; g->n++; }
+      if (!g->base || dst < g->base) g->base = dst;
+   }
+   (void)src; (void)src_stride;
+}
+static void route_case(OpusMSEncoder *me, int ch, int streams, int coupled, const unsigned char *mapping)
+{
+   static float pcm[960 * 255]; static unsigned char pkt[1275 * 255 + 512];
+   RouteLog g; int i, ret;
+   memset(&g, 0, sizeof g);
+   printf("I delay encroute %d %d %d x", ch, streams, coupled);
+   for (i = 0; i < ch; i++) printf("%02x", mapping[i]);
+   printf("\n"); fflush(stdout);
+   ret = opus_multistream_encode_native(me, rec_copy_in, pcm, 960, pkt, (opus_int32)sizeof pkt, 24, downmix_float, 1, &g);
+   if (ret < 0) { printf("O ERR %s\n", verr(ret)); return; }
+   printf("O");
+   for (i = 0; i < g.n; i++) printf(" s%do%dc%d", g.call[i].stride, (int)(g.call[i].dst - g.base), g.call[i].chan);
+   printf("\n");
+}
+static void mode_encroute(uint64_t seed, int ncase)
+{
+   int fam, ch, k, err;
+   vrng r; r.s = seed * 0x9E3779B97F4A7C15ULL + 4242;
+   for (fam = 0; fam <= 255; fam = fam == 0 ? 1 : fam == 1 ? 255 : 256)
+      for (ch = 1; ch <= (fam == 0 ? 2 : fam == 1 ? 8 : 12); ch++) {
+         unsigned char mapping[256]; int st = 0, cp = 0;
+         OpusMSEncoder *me = opus_multistream_surround_encoder_create(48000, ch, fam, &st, &cp, mapping, OPUS_APPLICATION_AUDIO, &err);
+         if (!me) continue;
+         route_case(me, ch, st, cp, mapping);
+         opus_multistream_encoder_destroy(me);
+      }
+   for (k = 0; k < ncase; k++) {
+      /* encoder-valid layout: every byte 0 .. streams+coupled-1 occurs; extra channels repeat a byte or are muted */
+      unsigned char mapping[256]; int st = 1 + (int)vbelow(&r, 5), cp = (int)vbelow(&r, (uint32_t)st + 1), need = st + cp;
+      int extra = (int)vbelow(&r, 4), chn = need + extra, i;
+      OpusMSEncoder *me;
+      for (i = 0; i < need; i++) mapping[i] = (unsigned char)i;
+      for (i = need; i < chn; i++) mapping[i] = vbelow(&r, 3) == 0 ? 255 : (unsigned char)vbelow(&r, (uint32_t)need);
+      for (i = chn - 1; i > 0; i--) { int j = (int)vbelow(&r, (uint32_t)i + 1); unsigned char t = mapping[i]; mapping[i] = mapping[j]; mapping[j] = t; }
+      me = opus_multistream_encoder_create(48000, chn, st, cp, mapping, OPUS_APPLICATION_AUDIO, &err);
+      if (!me) { printf("I delay encroute %d %d %d x", chn, st, cp); for (i = 0; i < chn; i++) printf("%02x", mapping[i]); printf("\nO ERR %s\n", verr(err)); continue; }
+      route_case(me, chn, st, cp, mapping);
+      opus_multistream_encoder_destroy(me);
+   }
+}
+
 int main(int argc, char **argv)
 {
    vinstall_traps();
    if (argc >= 2 && !strcmp(argv[1], "lookahead")) { mode_lookahead(); return 0; }
    if (argc >= 4 && !strcmp(argv[1], "mdct")) { mode_mdct(strtoull(argv[2], 0, 10), atoi(argv[3])); return 0; }
+   if (argc >= 4 && !strcmp(argv[1], "encroute")) { mode_encroute(strtoull(argv[2], 0, 10), atoi(argv[3])); return 0; }
    if (argc >= 2 && !strcmp(argv[1], "rt")) {
       static char line[4096];
       while (fgets(line, sizeof line, stdin)) { if (line[0] == 'r') run_rt(line); fflush(stdout); }
       return 0;
    }
-   fprintf(stderr, "usage: c04_roundtrip lookahead | mdct <seed> <n> | rt < configs\n");
+   fprintf(stderr, "usage: c04_roundtrip lookahead | mdct <seed> <n> | encroute <seed> <n> | rt < configs\n");
    return 64;
 }
